@@ -55,6 +55,8 @@ func theWorld() *dyn.World {
 			dyn.MethodSpec{Name: "Bidi", In: ".un.All", Out: ".un.All", ClientStream: true, ServerStream: true, Rule: post("/c15/bidi")},
 			dyn.MethodSpec{Name: "ServerS", In: ".un.All", Out: ".un.All", ServerStream: true, Rule: post("/c15/server")},
 			dyn.MethodSpec{Name: "ClientS", In: ".un.All", Out: ".un.All", ClientStream: true, Rule: post("/c15/client")},
+			dyn.MethodSpec{Name: "Upload", In: ".un.UploadReq", Out: ".un.All", ClientStream: true,
+				Rule: &annotations.HttpRule{Pattern: &annotations.HttpRule_Post{Post: "/c15/upload/{name}"}, Body: "file"}},
 		))
 	})
 	return world
@@ -292,6 +294,20 @@ func cancelMux(c CCase, hs *hstate) *larking.Mux {
 			close(hs.ctxDone)
 		}()
 		recv := func() error { return ss.RecvMsg(dynamicpb.NewMessage(in)) }
+		if strings.HasSuffix(full, "/Upload") {
+			announced := false
+			for {
+				// announce once; a partial compressed stream yields an unknown number of chunks
+				if !announced {
+					announced = true
+					hs.blocked <- "recv"
+				}
+				if err := recv(); err != nil {
+					hs.released <- err
+					return err
+				}
+			}
+		}
 		switch c.Point {
 		case "recv-blocked", "before-first":
 			n := c.MsgsFirst
@@ -414,6 +430,23 @@ func CheckCancel(c CCase) (vs []evid.Violation, verified bool) {
 			}
 		}
 		doCancel = cancel
+	case "http1gz":
+		conn, err := net.Dial("tcp", real.Addr)
+		if err != nil {
+			return fail("setup", "dial", "dial: %v", err)
+		}
+		defer conn.Close()
+		raw := make([]byte, 24<<10)
+		x := uint32(c.MsgsFirst*7919 + 1)
+		for i := range raw {
+			x = x*1664525 + 1013904223
+			raw[i] = byte(x>>24) & 0x3f
+		}
+		gz := drive.Gzip(raw)
+		fmt.Fprintf(conn, "POST /c15/upload/f1 HTTP/1.1\r\nHost: x\r\nContent-Type: application/x-bin\r\nContent-Encoding: gzip\r\nTransfer-Encoding: chunked\r\n\r\n")
+		half := gz[:len(gz)*c.MsgsFirst/4]
+		fmt.Fprintf(conn, "%x\r\n%s\r\n", len(half), half)
+		doCancel = func() { conn.Close() }
 	case "http1", "grpcweb1":
 		conn, err := net.Dial("tcp", real.Addr)
 		if err != nil {
@@ -522,11 +555,14 @@ func CheckCancel(c CCase) (vs []evid.Violation, verified bool) {
 func TestPropCancel(t *testing.T) {
 	rapid.Check(t, func(t *rapid.T) {
 		c := CCase{
-			Transport: rapid.SampledFrom([]string{"grpc", "grpc", "http1", "grpcweb1"}).Draw(t, "transport"),
+			Transport: rapid.SampledFrom([]string{"grpc", "grpc", "http1", "grpcweb1", "http1gz"}).Draw(t, "transport"),
 			Point:     rapid.SampledFrom([]string{"recv-blocked", "send-blocked", "between", "before-first"}).Draw(t, "point"),
 			MsgsFirst: rapid.IntRange(1, 3).Draw(t, "msgsFirst"),
 		}
 		c.Mechanism = "close"
+		if c.Transport == "http1gz" {
+			c.Point = "recv-blocked" // gzip-encoded HttpBody upload cut in the middle of the compressed stream
+		}
 		if c.Transport == "grpc" {
 			c.Mechanism = "cancel"
 		}
